@@ -170,6 +170,15 @@ CHECKS["C02"] = ("fault_enumeration",
     "anchored fits, a sample elsewhere; thorough: all sites, first and last hit).",
     "DESIGN.md §3 C02")
 
+CHECKS["C03"] = ("exploration",
+    "runtime history monitor: refit-vs-fresh-instance differential on public outputs and on a deep structural "
+    "diff of the fitted state (incl. the set of fitted attributes); same-seed determinism, also under "
+    "yield-injected thread schedules; global-seed independence where an integer random_state is documented",
+    "23 fittable classes x configurations x histories {AB, A-query-B, ABA, B-query-A} on structurally different "
+    "training sets x 3 (thorough 12) seeds; thread-parallel configurations are refitted 6 times under perturbed "
+    "schedules.",
+    "DESIGN.md §3 C03")
+
 PENDING = {}
 
 
